@@ -292,7 +292,9 @@ pub fn run(tier: Tier) -> Report {
         scs.push(plain(format!("proc main() {{ {} }}", "if (1) ; else ".repeat(d))));
     }
     // documents that crashed earlier versions (kept so that the quick tier guards the repairs)
-    for t in ["proc printi", "proc int printi", "proc a int array", "proc int '\u{20ac}'", "type A = array [2] of int; proc main() { var v: array [2] of int; v[0] := 1; }", "\na"] {
+    for t in ["proc printi", "proc int printi", "proc a int array", "proc int '\u{20ac}'", "type A = array [2] of int; proc main() { var v: array [2] of int; v[0] := 1; }", "\na",
+        // predefined names in type expressions of type declarations
+        "type a = printi ;", "type a = array [ 1 ] of exit ; type b = a ;", "type int = readi ; proc p ( x : time ) { }"] {
         scs.push(plain(t.to_string()));
     }
     // an edit history that killed the document task of earlier versions (stale node re-use in
